@@ -1477,3 +1477,41 @@ func (rt *runtime) search(rep *Report) {
 	}
 	rep.SearchMs = int(time.Since(t0).Milliseconds())
 }
+
+// ---- evaluating a predicate of a contract file on concrete values (used by bounded harnesses to
+// check that callers establish the preconditions the deductive contracts assume) ----
+
+type PredEval struct {
+	rt *runtime
+}
+
+// NewPredEval parses the given contract files (the first one is searched first).
+func NewPredEval(consts map[string]any, files ...string) (*PredEval, error) {
+	rt := &runtime{pk: &Pkg{Consts: consts, Pure: map[string]reflect.Value{}}}
+	for _, p := range files {
+		cf, err := ParseContractFile(p)
+		if err != nil {
+			return nil, err
+		}
+		rt.files = append(rt.files, cf)
+	}
+	return &PredEval{rt}, nil
+}
+
+// Eval evaluates pred(args...) ; ok=false with a reason when it cannot be evaluated.
+func (pe *PredEval) Eval(pred string, args ...any) (v bool, why string, ok bool) {
+	e := &env{rt: pe.rt, vars: map[string]any{}, bound: map[string]any{}}
+	ps := e.findPred(pred)
+	if ps == nil {
+		return false, "unknown predicate " + pred, false
+	}
+	if len(ps.Params) != len(args) {
+		return false, "wrong number of arguments for " + pred, false
+	}
+	for i, p := range ps.Params {
+		h := reflect.New(reflect.TypeOf(args[i])).Elem()
+		h.Set(reflect.ValueOf(args[i]))
+		e.vars[p.Name] = norm(h)
+	}
+	return e.evalBool(ps.Body)
+}
